@@ -286,7 +286,7 @@ fn main() {
             // profile (when it is clearly non-uniform) and with a strongly skewed policy written by
             // verif_set_memory (geometric masses 0.5^k + 0.01 assigned to the edges in a random
             // order), sweeping the epoch counter so that every draw has its own PRNG seed.
-            if freq_done < freq_nodes {
+            if freq_done < freq_nodes && (freq_done < freq_nodes / 2 || epoch >= epochs / 2) {
                 let walker = tree.walker();
                 let nodes = tree.all();
                 let opp: Vec<usize> = nodes.iter().enumerate()
